@@ -462,3 +462,7 @@ def run(chk, facts, tier):
     # ... and over entity stores its entity validation accepts: every component of an entity (all ancestors included) is checked
     from rules import C11 as _c11
     _c11.entity_components(chk, facts)
+    # the API's validation mode reaches the validator unchanged (strict stays strict)
+    facts.load_crate("cedar_policy.lib")
+    from rules import shared_namesake
+    shared_namesake.check(chk, facts, "C03.NAMESAKE.mode", lambda n: "ValidationMode" in n, 9)
